@@ -565,6 +565,22 @@ static int s_p_corr(ctx_t *c, int a, int b)
     return HND(c->ph[a]);
 }
 
+/*
+ * the documented short form: sigma_frequency_vector == NULL with one sigma
+ * per frequency of the vector parameter the chain of others ends in
+ * (b = other * 16 + number of points of that vector parameter)
+ */
+static int s_p_corr_null(ctx_t *c, int a, int b)
+{
+    int n = b % 16, other = b / 16;
+    double sv[16];
+    for (int i = 0; i < n; ++i)
+	sv[i] = 0.01 + 0.002 * i * (i - 1.5);
+    c->ph[a] = vnacal_make_correlated_parameter(c->vcp, c->ph[other],
+	    NULL, n, sv);
+    return HND(c->ph[a]);
+}
+
 /* b != 0: a scalar or vector parameter, record its values first */
 static int s_p_delete(ctx_t *c, int a, int b)
 {
@@ -1461,6 +1477,50 @@ static void param_hists(void)
 }
 
 /*
+ * correlated parameters that borrow the frequency grid of a vector
+ * parameter, directly and through an unknown parameter; the vector
+ * parameter is read, deleted first and deleted last
+ */
+static void borrow_hists(void)
+{
+    for (int order = 0; order < 2; ++order) {
+	hist_t *h = new_hist('P', "parameters: correlated with NULL sigma "
+		"frequency vector over a vector parameter and over an "
+		"unknown of it; %s", order ? "correlated deleted first" :
+		"vector deleted first");
+	ADD(h, s_create, 0, 0, "vnacal_create");
+	ADD(h, s_p_vector, 1, 5, "vnacal_make_vector_parameter");
+	ADD(h, s_p_unknown, 2, 1, "vnacal_make_unknown_parameter");
+	ADD(h, s_p_corr_null, 3, 1 * 16 + 5,
+		"vnacal_make_correlated_parameter");
+	ADD(h, s_p_corr_null, 4, 2 * 16 + 5,
+		"vnacal_make_correlated_parameter");
+	ADD(h, s_p_corr_null, 5, 4 * 16 + 5,
+		"vnacal_make_correlated_parameter");
+	ADD(h, s_p_value, 1, 3, "vnacal_get_parameter_value");
+	if (order == 0) {
+	    ADD(h, s_p_delete, 1, 1, "vnacal_delete_parameter");
+	    ADD(h, s_p_delete, 2, 0, "vnacal_delete_parameter");
+	    ADD(h, s_p_vector, 6, 3, "vnacal_make_vector_parameter");
+	    ADD(h, s_p_delete, 3, 0, "vnacal_delete_parameter");
+	    ADD(h, s_p_delete, 5, 0, "vnacal_delete_parameter");
+	    ADD(h, s_p_delete, 4, 0, "vnacal_delete_parameter");
+	} else {
+	    ADD(h, s_p_delete, 5, 0, "vnacal_delete_parameter");
+	    ADD(h, s_p_delete, 3, 0, "vnacal_delete_parameter");
+	    ADD(h, s_p_delete, 4, 0, "vnacal_delete_parameter");
+	    ADD(h, s_p_value, 1, 2, "vnacal_get_parameter_value");
+	    ADD(h, s_p_corr_null, 3, 2 * 16 + 5,
+		    "vnacal_make_correlated_parameter");
+	    ADD(h, s_p_delete, 2, 0, "vnacal_delete_parameter");
+	    ADD(h, s_p_delete, 1, 1, "vnacal_delete_parameter");
+	}
+	for (int i = 0; i < 4; ++i)
+	    ADD(h, s_reuse, i, 0, "vnacal_make_scalar_parameter");
+    }
+}
+
+/*
  * registration order: every parameter kind is first seen by a vnacal_new_t
  * through an add call, in every dependency order
  *   ph0 scalar, ph1 vector, ph2 unknown(ph0), ph3 correlated(ph1),
@@ -1746,6 +1806,7 @@ static void build_histories(void)
     cal_hist(VNACAL_UE10, 2, 2, 1, 0, 0, 0, 0, 1, X_TRL, T_ADD);
     cal_hist(VNACAL_T8,   2, 2, 2, 0, 0, 0, 2, 0, X_CORR, T_ADD);
     param_hists();
+    borrow_hists();
     reg_hists();
     prop_hists();
     data_hists();
